@@ -41,6 +41,10 @@ def l1_monitor(rec):
 def chain_monitor(info, xs, execs, wfe, obs):
     out = []
     m = len(execs)
+    if info.get("expect_execs") is not None and m != info["expect_execs"]:
+        out.append("the step ran %d times; under retry=(ValueError or RuntimeError), stop_after_attempt(%d) and the exceptions "
+                   "%s it runs %d times (the named condition was used to derive another one before)"
+                   % (m, info["n"], [type(x).__name__ for x in xs[:info["expect_execs"] + 1]], info["expect_execs"]))
     if info.get("stop_tree") is not None and m < RC.NEXC:
         # the number of executions the nested stop condition documents: the first failure count at which it holds
         want = next((k for k in range(1, RC.NEXC + 1) if RC.stop_oracle(info["stop_tree"], k)), None)
@@ -131,7 +135,7 @@ def run(ctx):
         ctx.violation("model/implementation disagreement in suite retrychain (no property-level failing input found)",
                       dict(suite="retrychain", theorem="C05_stop_after_attempt_exact / C05_report_is_real (Model/RetryChain.v no "
                            "longer matches the engine's retry loop)", coq_cases=[exprs[i] for i in bad[:3]]), found_input=False)
-    for k in ("attempt", "delay", "never", "composed", "nested"):
+    for k in ("attempt", "delay", "never", "composed", "nested", "aliased"):
         ctx.require_coverage("retrychain", k, shapes.get(k, 0), 10)
     ctx.require_coverage("retrychain", "chains_with_3_or_more_executions", multi, 30)
     run_l1(ctx, ctx.n(100, 4000), l1_monitor, THEOREMS, need=("retry_queued", "fail_workflow"))
